@@ -315,7 +315,26 @@ func (it *Interp) valEq(a, b Value) *Term {
 	return nil
 }
 
+// tokenAlphabet: bytes that may occur inside the decimal text of a number.
+func tokenAlphabet(b byte) bool {
+	return (b >= '0' && b <= '9') || b == '-' || b == '+' || b == '.' || b == 'e' || b == 'E' || b == 'I' || b == 'n' || b == 'f' || b == 'N' || b == 'a'
+}
+
 func (it *Interp) binop(op token.Token, a, b Value, ta, tbt types.Type) Value {
+	// a numeric token cell compared with a byte: a token never equals a byte outside the number alphabet
+	if ta0, ok := a.(*TokByte); ok {
+		_ = ta0
+		if y, ok := b.(*Term); ok && y.IsConst() && !tokenAlphabet(byte(y.U)) && (op == token.EQL || op == token.NEQ) {
+			return it.tb.BoolC(op == token.NEQ)
+		}
+		it.outside("operation %s on a numeric token cell", op)
+	}
+	if _, ok := b.(*TokByte); ok {
+		if x, ok := a.(*Term); ok && x.IsConst() && !tokenAlphabet(byte(x.U)) && (op == token.EQL || op == token.NEQ) {
+			return it.tb.BoolC(op == token.NEQ)
+		}
+		it.outside("operation %s on a numeric token cell", op)
+	}
 	switch x := a.(type) {
 	case *Term:
 		y := b.(*Term)
